@@ -3,8 +3,8 @@
    Relative to the ClickHouse-subset semantics model/SqlEval.v (trusted) and the planner model
    model/LogqlPlan.v (tied to the Go planners byte for byte by checks/sqltext.py). *)
 From Coq Require Import List ZArith NArith QArith String Ascii Bool Permutation.
-From Qryn Require Import lib.Strs model.Sql model.Logql model.LogqlPlan model.SqlEval model.LogqlSem
-  proofs.SqlEvalProofs proofs.LogqlSemProofs.
+From Qryn Require Import lib.Strs model.Sql model.Logql model.LogqlPlan model.SqlEval model.LogqlSem model.LogqlSemCheck
+  proofs.SqlEvalProofs proofs.LogqlSemProofs proofs.LogqlSemCheckProofs.
 Import ListNotations.
 Open Scope string_scope.
 
@@ -98,3 +98,22 @@ Theorem line_filter_correct :
     = Some (vbool (line_ok re_match (x_line x) op val)).
 Proof. intros re_match parse_float tie c d op val re_lit x g H. exact (ev_lft_clause re_match parse_float tie c d (op, val, re_lit) x g H). Qed.
 Print Assumptions line_filter_correct.
+
+(* the hypotheses of logql_log_partial are met by an ordinary query (two matchers, |= and !~ line filters,
+   a label filter, limit 1, forward, cluster table names) over a non-empty database, and the SELECT the
+   planners build for it evaluates to the one matching line *)
+Theorem logql_log_partial_guards_met :
+  in_fragment ex_query = true /\ oracle_ok no_re no_float ex_query /\ ctx_ok ex_ctx = true /\ db_ok ex_ctx w_db
+  /\ width_guard ex_query = true /\ absent_guard no_re ex_query w_db
+  /\ exists sel, log_select ex_query ex_ctx = Some sel
+       /\ option_map (map row_out) (eval no_re no_float LogqlSemProofs.tie_id (to_sqldb ex_ctx w_db) sel)
+          = Some [Some {| o_fp := 7; o_labels := [("b", "1")]; o_line := "hello"; o_ts := 1700000000000000005 |}].
+Proof. exact partial_guards_met. Qed.
+Print Assumptions logql_log_partial_guards_met.
+
+(* the boolean oracle that the check runs on the rows of the implementation's SQL decides the reference
+   semantics exactly (it neither accepts a wrong answer nor rejects a right one) *)
+Theorem spec_oracle_decides : forall re_match parse_float q c d res,
+  sem_b re_match parse_float q c d res = true <-> logql_sem re_match parse_float q c d res.
+Proof. exact sem_b_iff. Qed.
+Print Assumptions spec_oracle_decides.
